@@ -37,24 +37,24 @@ CLAIMED = {
               'has_value(), poller): every waiter is released exactly once or told "already resolved" (never both), never before the result is set, it observes the final result, nobody stays blocked '
               '(deadlock query), nothing touches a waiter after its release (lifetime query).', 'DESIGN.md 3, 5/C02', T_E2),
     'C03': e2('(a) Lock-free core (E2, happens-before over all SC interleavings): resolver against poller / callback subscriber / blocking wait / coroutine protocol / has_value, two resolvers, and the mutex contention '
-              'scenarios whose critical section writes plain cells: no pair of conflicting accesses with a non-atomic member is unordered by C++20 happens-before (release/acquire, release sequences, fences). '
+              'scenarios whose critical section writes plain cells, the generic awaiter chain (registering threads against the collecting thread) and two threads on one reusable_storage_mtsafe: no pair of conflicting accesses with a non-atomic member is unordered by C++20 happens-before (release/acquire, release sequences, fences). '
               '(b) Lock discipline (E1, -DVF_DISCIPLINE): in every history of 3 (thorough 4) operations on queue, limited_queue, scheduler (manual mode) and publisher, every access to the component object and to heap '
               'blocks allocated under its lock happens with the lock held. Non-SC executions and thread_pool are outside (C11 models the pool).', 'DESIGN.md 3.3, 3.7, 5/C03',
               T_E2.replace('sequential-consistency encoding', 'sequential-consistency encoding plus C++20 happens-before as vector clocks (data-race query)') + ' ; lock discipline: ' + T_E1, engine='E1+E2'),
     'C04': e1('16 start modes (detach discarded / awaited, start(), start(promise) live / claimed, co_await from a parent, join(), future<T>(coro), returned as future<T>, never started; normal and coroutine mode) x 7 completion modes '
               '(sync value / throw, suspension on a future resolved from normal mode, from a coroutine discarding or awaiting the suspend point) x {int, void, counted} x nesting depth 0..3: body counters, RAII probes of arguments, '
-              'locals and values, allocation balance, value or exact exception reaches exactly the bound party, bound future pending while suspended, start(claimed) returns false and ~async frees the frame. Unit start_mt: start(promise) against another thread that sets / drops / moves away the same promise, the other operation placed in front of every atomic instruction of start(promise) (one pre-emption): exactly one party owns the outcome, the body runs iff start() reports true.', 'DESIGN.md 3.8, 5/C04', T_E1 + T_INJ),
+              'locals and values, allocation balance, value or exact exception reaches exactly the bound party, bound future pending while suspended, start(claimed) returns false and ~async frees the frame. Unit start_mt: start(promise) against another thread that sets / drops / moves away the same promise, the other operation placed in front of every atomic instruction of start(promise) (one pre-emption): exactly one party owns the outcome, the body runs iff start() reports true. Unit reuse_raw: children awaited one after another in one reusable_storage, suspended on a foreign awaitable and resumed by a raw handle.resume() or through coro_queue: the finished frame is destroyed before its awaiter goes on.', 'DESIGN.md 3.8, 5/C04', T_E1 + T_INJ),
     'C05': e1('Programs of real async<void> coroutines interpreting scripts (spawn-discard, spawn-and-await, pause, resolve promise k and discard / await, await future k, finish) from normal code or from a coroutine-mode context, all '
               'programs of <=2 (thorough 3) steps plus slices of longer ones and round-robin pause programs up to 4x4, against a lock-step ghost FIFO: nothing made ready runs before the running coroutine suspends or finishes, '
-              'FIFO resumption (symmetric-transfer target may overtake), strict round-robin for pause, never resumed while running, empty queue after every outermost activation.', 'DESIGN.md 5/C05', T_E1),
+              'FIFO resumption (symmetric-transfer target may overtake), strict round-robin for pause, never resumed while running, empty queue after every outermost activation; also when the pending promises are resolved from ordinary code while an exception propagates (unit unwind_resolve).', 'DESIGN.md 5/C05', T_E1),
     'C06': e1('(1) One operation (<< handle, << suspend_point&&, move-construct, move-assign, pop, clear, destructor, await_suspend in both modes, typed construct+move, create_suspend_point) from directly built representations '
               '(inline 0..3, heap capacity 6/12/24/48 with any count, decoy handles in unused slots): invariant restored, held + handed out + resumed == 1 per handle, source emptied, exact allocation balance, typed value kept. '
               '(2) Histories from empty (<=3, thorough 4 operations over two objects, add 1 or 4 handles) in normal and coroutine mode, everything destroyed at the end: every handle resumed exactly once.', 'DESIGN.md 5/C06', T_E1),
     'C07': e2('Contenders of every flavour (try_lock, blocking lock().wait(), coroutine protocol) and release flavour (ownership destructor, release() discarded, release()+clear()) on one mutex, owner releasing while a '
               'request is in flight and free-mutex contention: no two parties in the critical section, each request granted exactly once, a waiter told "not suspended" is never resumed as well, suspended '
               'waiters resumed exactly once, library asserts, lifetime of the awaiter/frame, no thread blocked forever, mutex lockable again.', 'DESIGN.md 3, 5/C07', T_E2),
-    'C08': e2('Sequential unit (E1): for every N<=3 (thorough 4) queued coroutines and every release style of owner and waiters, grant order = arrival order, every request granted, try_lock fails while held and succeeds '
-              'afterwards. Concurrent units (E2): the C07 scenarios (orphaned lock / lost request / deadlock queries) and, in the thorough tier, owner + two requesters whose arrival order is fixed by a hand-shake: '
+    'C08': e2('Sequential units (E1): for every N<=3 (thorough 4) queued coroutines and every release style of owner and waiters, grant order = arrival order, every request granted, try_lock fails while held and succeeds '
+              'afterwards; the same with 1..2 requests that arrive while an earlier waiter owns the mutex and older ones are still queued (fifo_late). Concurrent units (E2): the C07 scenarios (orphaned lock / lost request / deadlock queries) and, in the thorough tier, owner + two requesters whose arrival order is fixed by a hand-shake: '
               'grant order must equal arrival order in every interleaving.', 'DESIGN.md 5/C08', T_E1 + ' ; ' + T_E2, engine='E1+E2'),
     'C09': e1('Every history over {push(v), pop, unblock_pop(e)} up to the stated length, then destruction, for queue<int>, queue<void>, a single_item_queue consumer variant and a real consumer coroutine: '
               'the real queue agrees with a FIFO-pair reference model after every step (which pop completes, with which value / exception, arrival order of waiters, size()/empty(), never both internal '
@@ -68,10 +68,10 @@ CLAIMED = {
               'workers joined / self-detached, no join deadlock, allocation balance. Unit h_stop_race: a submission against stop() of another thread placed in front of every mutex acquisition of the submission: nothing is left pending once stop() has returned. Known finding (printed, exit 0): raw-handle jobs meeting a stopped pool are dropped (D9).', 'DESIGN.md 3.7, 5/C11', T_E1 + T_INJ),
     'C12': e1('Manual-mode histories over sleep_until/schedule, cancel(id[,e]), remove(id), get_expired(now) with time points enumerated up to weak order (ties included) and identifiers canonical, against a per-sleep '
               'reference model; the interval() generator with a stop token (request_stop while sleeping / parked / before start; double-lock of the scheduler mutex is a failure); start(awaitable) under a virtual '
-              'clock with up to 3 scripted sleepers (never early, on time when idle, in deadline order, cancels hit exactly their target); destruction cancels pending sleeps.', 'DESIGN.md 5/C12', T_E1),
+              'clock with up to 3 scripted sleepers (never early, on time when idle, in deadline order, cancels hit exactly their target); destruction cancels pending sleeps. Unit h_start_mt: another thread\'s sleep_until placed in front of every acquisition of the scheduler mutex by the scheduling thread, or inside its timed wait (the wait must be woken when the new entry is the earliest): the foreign sleep is woken at its own time point.', 'DESIGN.md 3.8, 5/C12', T_E1 + T_INJ),
     'C13': e1('Scripted generator bodies (yield lvalue/temporary, await ready / pending future, throw, return; up to 6 entries) x sequences of 11 consumer access styles (next()/value(), iterators, range-for, call -> future, '
               'co_await of either) for generator<int> and generator<int,int>: observed values, argument echo, exception position, single end indication then done(), RAII probes and allocation balance when '
-              'destroyed unstarted / parked / finished; payloads, awaited results and arguments symbolic. Unit sync_other_thread: a synchronous read whose awaited operation is completed by another thread while the reader blocks (wait hook).', 'DESIGN.md 3.8, 5/C13', T_E1 + T_INJ),
+              'destroyed unstarted / parked / finished; payloads, awaited results and arguments symbolic. Unit sync_other_thread: a synchronous read whose awaited operation is completed by another thread while the reader blocks (wait hook). Unit cb_consumer: a callback awaiter that hands over the argument of its next request inside the notification.', 'DESIGN.md 3.8, 5/C13', T_E1 + T_INJ),
     'C14': e1('0..3 (thorough 4) scripted source generators (yield, await pending, throw, return, infinite) x 6 consumer access styles, with and without arguments: per-source order and exactly-once delivery, payloads, '
               'end / exception only when nothing is left, exception must be one a source threw, argument routing to the source returned last, probes and allocation balance after destruction. Units destroy_inflight(_arg): the parked aggregate is destroyed while sources are in flight and another thread completes them while the destructor blocks (wait hook).', 'DESIGN.md 3.8, 5/C14', T_E1 + T_INJ),
     'C15': e1('Histories of up to 3 (thorough 4) events over <=3 listeners (re-awaiting coroutines, connect() callbacks returning true/false, listener on a dead emitter), collector calls by value / rvalue / lvalue / void, '
@@ -79,7 +79,7 @@ CLAIMED = {
               'immediate failure on a disconnected emitter, allocation balance. Unit sig_mt (listeners subscribing on another thread): 7 pairs of collector call / coroutine subscription / connect / last-handle destruction, the operation of the second thread placed in front of every atomic instruction of the first (one pre-emption), then a second emission and disconnect: no lost listener, no duplicate, cancellation reaches everybody.', 'DESIGN.md 3.8, 5/C15', T_E1 + T_INJ),
     'C16': e1('Histories over publish one / batch, subscribe recent / at position / by copy, next() polled / blocking-when-due / awaited by a coroutine, kick, leave, close for <=2 subscribers, three subscription modes and '
               'queue configurations unlimited,(1,1),(2,1),(3,2),(5,5) against a reference stream + cursors: all_values contiguous, duplicate-free and in order until a justified first end indication; skipping modes '
-              'strictly forward, skip_to_recent newest; close / destruction wakes parked subscribers; copies continue from the original\'s position; values symbolic. Unit pub_conc: an operation of the publisher thread in front of every mutex acquisition of an awaited next() of the subscriber.', 'DESIGN.md 3.7, 5/C16', T_E1 + T_INJ),
+              'strictly forward, skip_to_recent newest; close / destruction wakes parked subscribers; copies continue from the original\'s position; values symbolic. Unit pub_conc: an operation of the publisher thread in front of every mutex acquisition of an awaited next() of the subscriber, caught up (pub_conc) or with one unread value (pub_conc_ahead).', 'DESIGN.md 3.7, 5/C16', T_E1 + T_INJ),
     'C17': e2('Histories of copy / drop / await (callback awaiter keeping or dropping its own handle, coroutine) / resolve (value, exception, dropped promise) for seven ways of constructing a shared_future<counted>, incl. '
               'default-construct + get_promise(): same result for all copies, each awaiter resumed once after resolution, counted value constructed and destroyed once, state freed exactly once and only after '
               'resolution (allocation accounting + use-after-free / double-free obligations). Unit sf_mt (E2, every SC interleaving): copy / drop / await / construction-from-a-promise-taking-function on one thread against the resolving thread.', 'DESIGN.md 3, 5/C17', T_E1 + ' ; ' + T_E2, engine='E1+E2'),
@@ -88,7 +88,7 @@ CLAIMED = {
               'future, helper block released exactly once. Unit conv_mt: the registration of 6 adapters against the resolving thread, whose complete resolve operation is placed in front of every atomic instruction of the registration (one pre-emption).', 'DESIGN.md 3.8, 5/C18', T_E1 + T_INJ),
     'C19': e2('Per storage policy (default, reusable, reusable_mtsafe, stack, placement, reusable_buffer, promise_extra_storage over two bases) real coroutines of two frame sizes in creation/completion programs of <=3 frames '
               '(overlapping lifetimes for default and mtsafe): block valid for the requested size, never handed out twice while live, released exactly once with its size, canaries intact, no operator new '
-              'for a size class served before, stack storage only when it fits, extra object constructed once / usable at once / destroyed once; two live frames in one stack_storage region (h_stack2). Unit mtsafe2 (E2, every SC interleaving): two threads creating and finishing coroutine frames on one reusable_storage_mtsafe.', 'DESIGN.md 3, 5/C19', T_E1 + ' ; ' + T_E2, engine='E1+E2'),
+              'for a size class served before, stack storage only when it fits, extra object constructed once / usable at once / destroyed once; two live frames in one stack_storage region (h_stack2); creations that meet std::bad_alloc at their first operator new leave no block behind and do not disturb live frames (h_ovl_oom, allocation failure injected on demand). Unit mtsafe2 (E2, every SC interleaving): two threads creating and finishing coroutine frames on one reusable_storage_mtsafe.', 'DESIGN.md 3, 5/C19', T_E1 + ' ; ' + T_E2, engine='E1+E2'),
     'C20': e1('Every named operation (create / resolve / await by coroutine, blocking thread, callback / destroy a future-promise pair of int, void, small struct; lock, contend, hand over, release the mutex; build, merge, move, '
               'pop, clear a suspend point with <=3 handles; step a synchronous generator) runs inside an allocation region from states produced by short prefixes: operator new calls in the region == coroutine frames '
               'the harness created there (0 under placement_alloc). Excluded by statement: ready-queue deque growth every 64 pushes, >3 handles per suspend point.', 'DESIGN.md 5/C20', T_E1),
